@@ -18,7 +18,8 @@ def py_tokens(src):
         with warnings.catch_warnings():
             warnings.simplefilter("ignore")
             return list(tokenize.generate_tokens(io.StringIO(src).readline))
-    except (tokenize.TokenError, SyntaxError, IndentationError, ValueError):
+    except (tokenize.TokenError, SyntaxError, IndentationError, ValueError, SystemError, MemoryError, RecursionError):
+        # SystemError: CPython 3.12.1's C tokenizer fails with "Negative size passed to PyUnicode_New" on some f-strings
         return None
 
 
